@@ -7,7 +7,7 @@ out=seeded/MATRIX.md
 tmp=$(mktemp -d /tmp/matrix.XXXXXX)
 job() {
   d=$1; id=$(basename $d)
-  chk=${id#R2-}; chk=${chk#R3-}; chk=${chk#R4-}; chk=${chk#R5-}; [ "$chk" = "X01" ] && chk=C19; [ "$chk" = "X02" ] && chk=C09
+  chk=${id#R2-}; chk=${chk#R3-}; chk=${chk#R4-}; chk=${chk#R5-}; chk=${chk#R6-}; [ "$chk" = "X01" ] && chk=C19; [ "$chk" = "X02" ] && chk=C09
   p=/verif/$d/patch.diff
   [ -f /verif/$d/patch_on_repaired_tree.diff ] && p=/verif/$d/patch_on_repaired_tree.diff
   res=$(tools/par_mutant.sh M-$id $p $chk 2>&1 | grep -E "^== |PATCH DOES NOT")
@@ -17,13 +17,13 @@ job() {
   echo "$id ${nv:-$res}"
 }
 export -f job; export tmp
-ls -d seeded/C*/ seeded/R2-C*/ seeded/R3-C*/ seeded/R4-C*/ seeded/R5-C*/ seeded/X*/ | xargs -P 4 -I{} bash -c 'job {}'
+ls -d seeded/C*/ seeded/R2-C*/ seeded/R3-C*/ seeded/R4-C*/ seeded/R5-C*/ seeded/R6-C*/ seeded/X*/ | xargs -P 4 -I{} bash -c 'job {}'
 echo "| seeded change | patch used | quick check | violations reported |" > $out
 echo "|---|---|---|---|" >> $out
-for d in seeded/C*/ seeded/R2-C*/ seeded/R3-C*/ seeded/R4-C*/ seeded/R5-C*/ seeded/X*/; do cat $tmp/$(basename $d).row >> $out; done
+for d in seeded/C*/ seeded/R2-C*/ seeded/R3-C*/ seeded/R4-C*/ seeded/R5-C*/ seeded/R6-C*/ seeded/X*/; do cat $tmp/$(basename $d).row >> $out; done
 cat >> $out <<'EON'
 
-Round 1 = seeded/Cxx (made against the original snapshot), round 2 = seeded/R2-Cxx, round 3 = seeded/R3-Cxx, round 4 = seeded/R4-Cxx and round 5 = seeded/R5-Cxx (made against the
+Round 1 = seeded/Cxx (made against the original snapshot), round 2 = seeded/R2-Cxx, round 3 = seeded/R3-Cxx, round 4 = seeded/R4-Cxx, round 5 = seeded/R5-Cxx and round 6 = seeded/R6-Cxx (made against the
 repaired tree, each told which functions the earlier rounds had changed), X01 = reverse of fix 62b736f, X02 = reverse of fix a2bf6d7.  A row with 0 violations is
 explained in DESIGN.md 8.5.
 EON
